@@ -7,6 +7,7 @@ package quic
 // connection.go does and record the callbacks they make.
 
 import (
+	"net"
 	"sort"
 	"time"
 
@@ -369,4 +370,140 @@ func VerifAdvertisedCIDLimit(client, version, fingerprint string) (advertised ui
 // VerifQUICIDs lists the built-in spec identifiers the driver samples from.
 func VerifQUICIDs() []QUICID {
 	return []QUICID{QUICFirefox_116A, QUICFirefox_116B, QUICFirefox_116C, QUICChrome_115_IPv4, QUICChrome_115_IPv6, QUICChrome_146_IPv4, QUICChrome_146_IPv6}
+}
+
+// ---------------------------------------------------------------- whole transports (end-to-end driver)
+
+// VerifTransportRouting lists a live Transport's routing table (connection IDs with the kind of their handler, sorted)
+// and the number of registered stateless reset tokens.
+func VerifTransportRouting(t *Transport) (ids [][]byte, kinds []string, tokens int) {
+	t.mutex.Lock()
+	defer t.mutex.Unlock()
+	type ent struct {
+		id   []byte
+		kind string
+	}
+	var l []ent
+	for id, hd := range t.handlers {
+		k := "conn" // a live connection (possibly wrapped)
+		switch hd.(type) {
+		case *closedLocalConn:
+			k = "local"
+		case *closedRemoteConn:
+			k = "remote"
+		}
+		l = append(l, ent{append([]byte{}, id.Bytes()...), k})
+	}
+	sort.Slice(l, func(i, j int) bool { return string(l[i].id) < string(l[j].id) })
+	for _, e := range l {
+		ids = append(ids, e.id)
+		kinds = append(kinds, e.kind)
+	}
+	return ids, kinds, len(t.resetTokens)
+}
+
+// ---------------------------------------------------------------- pathManager (server-side path probing glue)
+
+// VerifPathManager is the real pathManager wired to a real connIDManager exactly as Conn.handleShortHeaderPacket does
+// (newPathManager(c.connIDManager.GetConnIDForPath, c.connIDManager.RetireConnIDForPath, logger)).
+type VerifPathManager struct {
+	pm         *pathManager
+	challenges map[int64][8]byte // path id -> PATH_CHALLENGE data handed out
+}
+
+func VerifNewPathManager(m *VerifCIDManager) *VerifPathManager {
+	return &VerifPathManager{
+		pm:         newPathManager(m.m.GetConnIDForPath, m.m.RetireConnIDForPath, utils.DefaultLogger),
+		challenges: map[int64][8]byte{},
+	}
+}
+
+func verifAddr(i int) net.Addr { return &net.UDPAddr{IP: net.IPv4(10, 0, 0, byte(i)), Port: 1000 + i} }
+
+// HandlePacket: returns the connection ID for the probe (nil: none), the id of the path a PATH_CHALLENGE was created
+// for (-1: none), whether a PATH_RESPONSE is among the frames, and shouldSwitch.
+func (v *VerifPathManager) HandlePacket(addr int, t int64, hasChallenge, isNonProbing bool) (connID []byte, challengeFor int64, response bool, shouldSwitch bool) {
+	var pc *wire.PathChallengeFrame
+	if hasChallenge {
+		pc = &wire.PathChallengeFrame{Data: [8]byte{0xee, byte(addr)}}
+	}
+	id, frames, sw := v.pm.HandlePacket(verifAddr(addr), monotime.Time(t), pc, isNonProbing)
+	challengeFor = -1
+	for _, f := range frames {
+		switch fr := f.Frame.(type) {
+		case *wire.PathChallengeFrame:
+			// the path just created is the last one
+			p := v.pm.paths[len(v.pm.paths)-1]
+			if p.pathChallenge == fr.Data {
+				challengeFor = int64(p.id)
+				v.challenges[int64(p.id)] = fr.Data
+			}
+		case *wire.PathResponseFrame:
+			response = true
+		}
+	}
+	if len(frames) > 0 {
+		connID = id.Bytes()
+		if connID == nil {
+			connID = []byte{}
+		}
+	}
+	return connID, challengeFor, response, sw
+}
+
+// Lost reports the PATH_CHALLENGE of the given path as lost to the frame's ack handler (false: no such challenge was sent).
+func (v *VerifPathManager) Lost(path int64) bool {
+	d, ok := v.challenges[path]
+	if !ok {
+		return false
+	}
+	(*pathManagerAckHandler)(v.pm).OnLost(&wire.PathChallengeFrame{Data: d})
+	return true
+}
+
+// Acked reports the PATH_CHALLENGE of the given path as acknowledged.
+func (v *VerifPathManager) Acked(path int64) bool {
+	d, ok := v.challenges[path]
+	if !ok {
+		return false
+	}
+	(*pathManagerAckHandler)(v.pm).OnAcked(&wire.PathChallengeFrame{Data: d})
+	return true
+}
+
+// LostResponse reports a PATH_RESPONSE frame as lost.
+func (v *VerifPathManager) LostResponse() {
+	(*pathManagerAckHandler)(v.pm).OnLost(&wire.PathResponseFrame{Data: [8]byte{1}})
+}
+
+// Response delivers the PATH_RESPONSE for the challenge of the given path (false: no such challenge was sent).
+func (v *VerifPathManager) Response(path int64) bool {
+	d, ok := v.challenges[path]
+	if !ok {
+		return false
+	}
+	v.pm.HandlePathResponseFrame(&wire.PathResponseFrame{Data: d})
+	return true
+}
+
+func (v *VerifPathManager) SwitchToPath(addr int) { v.pm.SwitchToPath(verifAddr(addr)) }
+
+// VerifPath is one entry of pathManager.paths (in order).
+type VerifPath struct {
+	ID             int64
+	Addr           int
+	LastPacketTime int64
+	Validated      bool
+	RcvdNonProbing bool
+}
+
+func (v *VerifPathManager) State() (paths []VerifPath, next int64) {
+	for _, p := range v.pm.paths {
+		a := 0
+		if u, ok := p.addr.(*net.UDPAddr); ok {
+			a = u.Port - 1000
+		}
+		paths = append(paths, VerifPath{ID: int64(p.id), Addr: a, LastPacketTime: int64(p.lastPacketTime), Validated: p.validated, RcvdNonProbing: p.rcvdNonProbing})
+	}
+	return paths, int64(v.pm.nextPathID)
 }
